@@ -569,19 +569,53 @@ func gobEncoded(c *Ctx, buf ssa.Value, depth int) []ssa.Value {
 	return nil
 }
 
-// rowCountRule: the counter persisted under the row-counter key is the writer's own counter field.
+// rowCountRule: the counter persisted under the row-counter key is the writer's own counter field. The Put may sit in
+// a storage helper (putRowCounter(bucket, n)) that encodes one of its parameters: the parameter is bound to the argument
+// of every call of the helper inside the anchor's scope, and each of those arguments must be the counter field.
 func rowCountRule(c *Ctx, rule string) {
 	for _, anchor := range []*ssa.Function{c.a.MemWrite, c.a.BigFlush} {
 		name := safeFname(anchor)
 		ok := false
 		why := "no 32-bit encoding of the writer's row counter is stored under the row-counter key"
-		for _, fn := range c.scope(anchor, 2) {
+		scope := c.scope(anchor, 2)
+		// callerArgs: v, a value of fn's frame; if it is (a conversion of) a parameter of a helper fn, the arguments bound
+		// to it at the helper's call sites in the scope (followed through two helper levels). A helper nobody in the scope
+		// calls keeps its parameter, which is no field load and fails the test below.
+		var callerArgs func(v ssa.Value, fn *ssa.Function, depth int) []ssa.Value
+		callerArgs = func(v ssa.Value, fn *ssa.Function, depth int) []ssa.Value {
+			p, isParam := peelConv(v).(*ssa.Parameter)
+			if !isParam || fn == anchor || depth > 2 {
+				return []ssa.Value{v}
+			}
+			k := -1
+			for j, q := range fn.Params {
+				if q == p {
+					k = j
+				}
+			}
+			var out []ssa.Value
+			for _, g := range scope {
+				allInstrs(g, func(i ssa.Instruction) {
+					if cc := callCommon(i); cc != nil && calleeFunc(cc) == fn && k >= 0 && k < len(cc.Args) {
+						out = append(out, callerArgs(cc.Args[k], g, depth+1)...)
+					}
+				})
+			}
+			if len(out) == 0 {
+				return []ssa.Value{v}
+			}
+			return out
+		}
+		for _, fn := range scope {
 			allInstrs(fn, func(i ssa.Instruction) {
 				put, isPut := i.(*ssa.Call)
 				if !isPut || calleeName(&put.Call) != boltPut || keyKind(c, put.Call.Args[1]) != "rows" {
 					return
 				}
-				vals := encodedUint32(c, put.Call.Args[2], 0)
+				var vals []ssa.Value
+				for _, val := range encodedUint32(c, put.Call.Args[2], 0) {
+					vals = append(vals, callerArgs(val, fn, 0)...)
+				}
 				if len(vals) == 0 {
 					return
 				}
